@@ -117,5 +117,83 @@ def rule_seq_custom(prog):
     return res
 
 
+def rule_num_mode(prog):
+    """R-MACRO-NUM: inside a macro a bare number is a delay. Only the defseq key-list parser may ask the shared item
+    parser to read numbers as keys (MacroNumberParseMode::Action); every other caller passes Delay or hands its own
+    mode parameter on."""
+    from kq.core import Resolver
+    res = RuleResult("R-MACRO-NUM", "numbers in macro bodies are parsed as delays", floor=2)
+    MODE = "kanata_parser::cfg::MacroNumberParseMode"
+    IMPL = "kanata_parser::cfg::parse_macro_item_impl"
+    allowed_action = {"kanata_parser::cfg::parse_sequence_keys"}
+    n = 0
+    for f in prog.fns.values():
+        if f.crate != "kanata_parser":
+            continue
+        for bi, t in f.calls():
+            if callee_name(t) != IMPL:
+                continue
+            n += 1
+            r = Resolver(f).root(t["args"][-1])
+            how = "?"
+            if r[0] == "agg" and r[1][2].get("adt") == MODE:
+                how = r[1][2]["v"]
+            elif r[0] == "param":
+                how = "own parameter"
+            ok = how in ("Delay", "own parameter") or (how == "Action" and f.norm in allowed_action)
+            res.inst("call/%s#%d" % (f.norm.split("::")[-1], n), mode=how, ok=ok)
+            res.oblige(ok)
+            if not ok:
+                res.viol("call/%s/%s" % (f.norm.split("::")[-1], how), "%s:%s" % (f.file, t.get("ln")),
+                         "%s asks parse_macro_item_impl to read numbers as %s: in a macro body `5` must be a 5 ms delay, not a tap of the "
+                         "5 key (only defseq key lists read numbers as keys)" % (f.norm.split("::")[-1], how))
+    if n == 0:
+        res.viol("anchors", "parser/src/cfg/mod.rs", "no call to parse_macro_item_impl found")
+    return res
+
+
+def rule_repeat_restart(prog):
+    """R-RPT-RESTART: a held macro-repeat is started again only when no macro is running any more."""
+    from rules.r_doaction import receiver_fields
+    res = RuleResult("R-RPT-RESTART", "a repeating macro restarts only when the running-macro ring is empty", floor=1)
+    f = prog.fn("kanata_keyberon::layout::Layout::process_sequences")
+    res.fn(f)
+    empties = []
+    for bi, t in f.calls():
+        if (callee_name(t) or "").endswith("ArrayDeque::is_empty"):
+            fl = receiver_fields(f, t)
+            if fl and fl[-1] == "active_sequences":
+                empties.append((bi, t))
+    n = 0
+    for bi, t in f.calls():
+        if not (callee_name(t) or "").endswith("ArrayDeque::push_back"):
+            continue
+        fl = receiver_fields(f, t)
+        if not (fl and fl[-1] == "active_sequences"):
+            continue
+        flds, _, _ = backward_slice(f, t["args"][1])
+        if not any(x[1] == "sequence" and "State" in x[0] for x in flds):
+            continue   # the "put it back" push of the cursor that is being processed
+        n += 1
+        ok = False
+        for (eb, et) in empties:
+            nb = et["t"]
+            tt = f.term(nb) if nb is not None else None
+            if tt and tt["k"] == "switch" and f.dominates(eb, bi):
+                true_t = [tb for v, tb in tt["ts"] if v == 1] or ([tt["o"]] if any(v == 0 for v, _ in tt["ts"]) else [])
+                oth = [x for x in f.succs(nb) if x not in true_t]
+                if true_t and bi in f.reach_from(true_t[0], avoid=[nb]) and not any(bi in f.reach_from(o, avoid=[nb]) for o in oth):
+                    ok = True
+        res.inst("restart#%d" % n, where="%s:%s" % (f.file, t.get("ln")), only_when_ring_empty=ok)
+        res.oblige(ok)
+        if not ok:
+            res.viol("restart#%d" % n, "%s:%s" % (f.file, t.get("ln")),
+                     "the held repeating macro is pushed into active_sequences without active_sequences.is_empty() having been true: a "
+                     "second copy starts while another macro (or an earlier copy) is still running")
+    if n == 0:
+        res.viol("anchors", f.loc, "no restart of a RepeatingSequence state found in process_sequences")
+    return res
+
+
 def run_all(prog):
-    return [rule_bal(prog), rule_seq_custom(prog)]
+    return [rule_bal(prog), rule_seq_custom(prog), rule_num_mode(prog), rule_repeat_restart(prog)]
